@@ -231,7 +231,10 @@ class EquationSolver(object):
         T = self.ParameterInitialSteadyStateMaxTime
         new_solver.Parser.MaxTime = T
         new_solver.MaxIterations = 1000
-        new_solver.Parser.Err_Tolerance = self.ParameterInitialSteadyStateErrorToler
+        # The periods of the search are solved at least as tightly as the periods of the simulation itself:
+        # a state found with looser within-period iterations moves again when the simulation re-solves it.
+        new_solver.Parser.Err_Tolerance = min(self.ParameterInitialSteadyStateErrorToler,
+                                              float(self.Parser.Err_Tolerance))
         # Fix exogenous to be constants
         for var, dummy in new_solver.Parser.Exogenous:
             val = [new_solver.TimeSeries[var][0], ] * (T + 1)
